@@ -498,6 +498,53 @@ func c18Families(c *Ctx) {
 		}
 	})
 	c.Check(okBound, key, rF, "len(each) < 2 bounds the scan", "the selection is not bounded to one address per family", c.fnAt(fn))
+
+	// random pick: shuffle, then first of each family, on the same (copied) slice
+	const rR = "the DNS dial shuffles the (copied) address list with the goroutine-safe math/rand.Shuffle and then takes the first address of each family from that same list"
+	for _, f := range c.P.RepoFuncs("lib") {
+		if !strings.HasPrefix(shortFn(f), "lib.DNSCaching$") {
+			continue
+		}
+		fe := callsNamed(f, "lib.firstOfEachIPFamily")
+		if len(fe) == 0 {
+			continue
+		}
+		keyR := "random-pick:" + shortFn(f)
+		sh := callsNamed(f, "math/rand.Shuffle", "math/rand/v2.Shuffle")
+		ok := len(sh) == 1 && len(fe) == 1 && instrDominates(sh[0], fe[0])
+		why := "the address list is not shuffled (with math/rand.Shuffle) before one address per family is taken: the same addresses would always be dialled"
+		if ok {
+			sc, fc := sh[0].(*ssa.Call), fe[0].(*ssa.Call)
+			cell := loadedCell(fc.Call.Args[0])
+			swap := closureOf(sc.Call.Args[1])
+			sameCell := false
+			if swap != nil && cell != nil {
+				for _, fv := range swap.FreeVars {
+					if rootCell(fv) == cell {
+						sameCell = true
+					}
+				}
+			}
+			if !sameCell || !lenOf(sc.Call.Args[0], func(v ssa.Value) bool { return loadedCell(v) == cell }) {
+				ok, why = false, "shuffle and selection do not work on the same list"
+			}
+			if ok {
+				// swap closure swaps i and j: two stores through the captured slice
+				n := 0
+				eachInstr(swap, func(i ssa.Instruction) {
+					if st, isSt := i.(*ssa.Store); isSt {
+						if _, isIA := st.Addr.(*ssa.IndexAddr); isIA {
+							n++
+						}
+					}
+				})
+				if n != 2 {
+					ok, why = false, "the shuffle callback is not a swap"
+				}
+			}
+		}
+		c.Check(ok, keyR, rR, "rand.Shuffle(len(ips), swap) → firstOfEachIPFamily(ips)", why, c.atsOr(sh, f)...)
+	}
 }
 
 func c18Chaining(c *Ctx, dcs []dialClosure) {
